@@ -146,5 +146,11 @@ def run(c, facts):
     c.run(r4_qualifier_local, facts)
     c.run(lambda c: c08.r5_binder_kind(c, facts, rule='C18.R1', crates=('oal_client',)))
     c.run(r2_edit_prov, facts)
+    import c15
+    import c09
+    R5 = c.rule('C18.R5', 'FRESH-TREES and STABLE-NAMES: rename works on trees of the current texts (shared with C15.R1/R2) and implicit component names do not depend on source positions (shared with C09.R2)')
+    c.shared(R5, c15.r1_set_stale, 'C15.R1', facts)
+    c.shared(R5, c15.r2_refresh_first, 'C15.R2', facts)
+    c.shared(R5, c09.r2_scoped_id, 'C09.R2', facts)
     R3 = c.rule('C18.R3', 'IDENT-LOC: reference edits replace exactly the unqualified identifier (shared with C17.R2)')
     c.shared(R3, c17.r2_ident_loc, 'C17.R2', facts)
